@@ -242,7 +242,13 @@ def _worker2(cases, tmp):
         except Exception as e:
             out.append((same, ['harness: the plain program does not run: %r' % e], None))
             continue
-        verdict, trace, logged, bind, ex = run_doctest(doc)
+        try:
+            verdict, trace, logged, bind, ex = run_doctest(doc)
+        except Exception as e:
+            # a well formed docstring that cannot even be parsed / run: none of its statements is executed
+            out.append((same, ['the doctest could not be parsed or run: %s: %s' % (type(e).__name__, str(e)[:300])],
+                        (common.sx_enc(i)[:1200], common.sx_enc(m)[:1200]) if not same else None))
+            continue
         if verdict != 'passed' and any(enabled):
             problems.append('the doctest did not pass (%s: %s)' % (verdict, type(ex.exc_info[1]).__name__ if ex.exc_info else None))
         if trace != ptrace:
